@@ -64,6 +64,13 @@ CHECKS = {
                 note="states = reference map contents reached; small maps (<=5 entries) only, so hash/bucket defects that need many entries are "
                      "covered through the hash relation, not through lookups",
                 technique="exhaustive relation checking over a finite value pool plus explicit enumeration of operation histories against a reference map"),
+    "C08": dict(level="model_checking", ref="3/C08",
+                text="all operation sequences (length <=2/3 over ~55 operations: in-place ops with boundary indices, copying ops followed by mutation, "
+                     "self-containment attempts direct / nested / through a HashMap) from 4 aliasing patterns of a 3-variable heap, with str of "
+                     "every variable compared with a Python reference heap after every operation; refused operations must leave everything unchanged "
+                     "and emit a diagnostic; a cyclic structure shows as stack overflow of the printer under the watchdog",
+                note="states = distinct reference heaps reached; arrays have no hidden state, so printing every variable observes the whole state",
+                technique="explicit enumeration of operation histories on the real VM against a reference heap model"),
 }
 
 PENDING_REASON = "check not built yet in this round (planned, see DESIGN.md section 3)"
